@@ -86,6 +86,11 @@ func (r *Receiver) Receive(m Message, from uint16) {
 		if sender == r.SelfID {
 			return
 		}
+		// A sender cannot vouch for its own message: only the other parties' acknowledgements count
+		if from == sender {
+			r.Logger.Warnf("Ignoring acknowledgement from %d about its own message", from)
+			return
+		}
 		r.Logger.Debugf("Got ack {sender: %d, digest: %s, round: %d} from %d",
 			sender, hexPrefix(digest), msgRound, from)
 		r.registerMsg(msgReception{
